@@ -46,7 +46,7 @@ def corpus_walks(name):
         for f in sorted(os.listdir(d)):
             if f.endswith(".json"):
                 c = json.load(open(os.path.join(d, f)))
-                if c.get("system") == name:
+                if c.get("system") == name and "rnd" in c:      # stored walks (scenario_*.json files are seeds, see c02_gen)
                     out.append(c)
     return out
 
@@ -56,10 +56,21 @@ def search(ctx, info, sysd, broken, log, n, steps):
     distinguishing (state, choices) of a label is reported as a failure with the walk as replay"""
     focus = [".".join(b.split(".")[1:]) for b in sorted(broken)]       # "process.label"
     mm, cover, err = [], {}, None
+    found = set()
+    if broken:
+        # 1. reachable states of the seed corpus standing at a broken label (and their one-step successors), every small choice vector
+        nsc, m2, note = G.scan_seeds(info, focus, log)
+        cover["#seed_states_scanned"] = nsc
+        if note:
+            ctx.notes.append(note)
+        mm += m2
+        found = {"%s.%s" % (m.get("process"), m.get("label")) for m in m2}
     groups = {}
-    for c in corpus_walks(sysd["name"]):       # stored walks first, each with the step bound / focus it was found with
+    for c in corpus_walks(sysd["name"]):       # stored walks, each with the step bound / focus it was found with
         groups.setdefault((c["steps"], tuple(c.get("focus", []))), []).append(c["rnd"])
-    groups.setdefault((steps, tuple(focus)), []).extend(rnd_lists(ctx.rng, n, steps))
+    if not broken or set(focus) - found:
+        # 2. differential random walks (biased to the broken labels that have no witness yet)
+        groups.setdefault((steps, tuple(sorted(set(focus) - found))), []).extend(rnd_lists(ctx.rng, n, steps))
     for (st_, fo_), rnds in groups.items():
         m1, c1, e1 = G.run_walks(info, rnds, st_, log, list(fo_))
         mm += m1
@@ -68,13 +79,6 @@ def search(ctx, info, sysd, broken, log, n, steps):
         err = err or e1
     if err:
         ctx.notes.append("differential walk of %s: %s" % (sysd["name"], err[:300]))
-    if broken:
-        # reachable states of the seed corpus that stand at a broken label, every small choice vector
-        nsc, m2, note = G.scan_seeds(info, focus, log)
-        cover["#seed_states_scanned"] = nsc
-        if note:
-            ctx.notes.append(note)
-        mm = m2 + mm
     seen = set()
     for m in mm:
         lid = "%s.%s.%s" % (sysd["name"], m.get("process"), m.get("label"))
